@@ -34,7 +34,7 @@ func (m *Mutex) Lock() {
 		m.locked = true
 		return
 	}
-	s.point(g, "mutex.lock")
+	s.point(g, "~mutex.lock")
 	for m.locked {
 		m.waiters = append(m.waiters, g)
 		s.wait(g, "mutex.wait")
@@ -60,7 +60,7 @@ func (m *Mutex) Unlock() {
 		s.ready(g)
 	}
 	if g := s.active; g != nil {
-		s.point(g, "mutex.unlock")
+		s.point(g, "~mutex.unlock")
 	}
 }
 
@@ -99,7 +99,7 @@ func (m *RWMutex) Lock() {
 		m.writer = true
 		return
 	}
-	s.point(g, "rwmutex.lock")
+	s.point(g, "~rwmutex.lock")
 	m.pendingW++
 	for m.writer || m.readers > 0 {
 		m.waiters = append(m.waiters, g)
@@ -121,7 +121,7 @@ func (m *RWMutex) Unlock() {
 	m.writer = false
 	m.wakeAll(s)
 	if g := s.active; g != nil {
-		s.point(g, "rwmutex.unlock")
+		s.point(g, "~rwmutex.unlock")
 	}
 }
 
@@ -139,7 +139,7 @@ func (m *RWMutex) RLock() {
 		m.readers++
 		return
 	}
-	s.point(g, "rwmutex.rlock")
+	s.point(g, "~rwmutex.rlock")
 	for m.writer || m.pendingW > 0 {
 		m.waiters = append(m.waiters, g)
 		s.wait(g, "rwmutex.rwait")
@@ -161,7 +161,7 @@ func (m *RWMutex) RUnlock() {
 		m.wakeAll(s)
 	}
 	if g := s.active; g != nil {
-		s.point(g, "rwmutex.runlock")
+		s.point(g, "~rwmutex.runlock")
 	}
 }
 
@@ -214,7 +214,7 @@ func (w *WaitGroup) Wait() {
 		}
 		return
 	}
-	s.point(g, "wg.wait")
+	s.point(g, "~wg.wait")
 	for w.n > 0 {
 		w.waiters = append(w.waiters, g)
 		s.wait(g, "wg.waiting")
@@ -264,7 +264,7 @@ func (p *Pool) Get() interface{} {
 		return nil
 	}
 	if g := s.active; g != nil {
-		s.point(g, "pool.get")
+		s.point(g, "~pool.get")
 	}
 	if n := len(p.items); n > 0 {
 		if s.dropThr == 0 || s.rng3.next()&0xffffffff >= s.dropThr {
